@@ -20,7 +20,7 @@ def cases(tier, seed):
     out = []
     for i in range(n):
         rng = gen.rng_for(seed, "C02", i)
-        kind = str(rng.choice(["halfspace", "ball", "annulus", "band", "corner", "hyperplane"], p=[0.2, 0.2, 0.2, 0.15, 0.15, 0.1]))
+        kind = str(rng.choice(["halfspace", "ball", "annulus", "band", "corner", "hyperplane", "stripes"], p=[0.15, 0.15, 0.15, 0.15, 0.1, 0.1, 0.2]))
         start = str(rng.choice(["feasible", "infeasible", "snap"], p=[0.75, 0.15, 0.10]))
         geom = str(rng.choice(["lin", "tight", "log", "mixedlog", "unb", "offcentre", "logedge"], p=[0.2, 0.15, 0.2, 0.15, 0.1, 0.1, 0.1]))
         x0mode = str(rng.choice(["in", "centre"], p=[0.8, 0.2]))
@@ -37,10 +37,14 @@ def cases(tier, seed):
         opts = {}
         if rng.random() < 0.25:
             opts["noise_final_samples"] = int(rng.choice([0, 1, 3]))
+        big_design = rng.random() < 0.3
+        if big_design:
+            # large initial designs: many design points near the constraint boundary
+            opts["fun_eval_start"] = int(rng.choice([32, 128, 256]))
         spec = gen.make_spec(rng, D=int(rng.choice([1, 2, 3], p=[0.15, 0.55, 0.3])), geom=geom, x0mode=x0mode,
                              land=str(rng.choice(["quad", "sphere", "l1", "rosen", "ramp", "bowl4"])),
                              where=str(rng.choice(["in", "onb", "out"], p=[0.5, 0.2, 0.3])), mode=mode, cons=kind, options=opts,
-                             max_fun_evals=int(rng.choice([40, 60, 90])), infeasible_start=infeasible)
+                             max_fun_evals=(int(opts["fun_eval_start"]) + 40 if big_design else int(rng.choice([40, 60, 90]))), infeasible_start=infeasible)
         out.append({"spec": spec, "start": start})
     return out
 
